@@ -107,6 +107,11 @@ func streamOps() []sop {
 			sort.SliceStable(o, func(i, j int) bool { return o[i] < o[j] })
 			return o
 		}, false},
+		{"Sort(by v/10)", 0, func(r, a coll.Stream) coll.Stream { return r.Sort(func(x, y int) bool { return x/10 < y/10 }) }, func(r, a []int) []int {
+			o := cp(r) // elements the comparator does not distinguish keep their order
+			sort.SliceStable(o, func(i, j int) bool { return o[i]/10 < o[j]/10 })
+			return o
+		}, false},
 		{"SortByIndex(desc)", 0, func(r, a coll.Stream) coll.Stream {
 			// the usual sort.Slice idiom: the comparator indexes the array being sorted, which the
 			// stream shares with the caller while SortByIndex runs
